@@ -1046,6 +1046,7 @@ int tls_record_get_handshake_certificate(const uint8_t *record, uint8_t *certs, 
 		}
 		if (x509_cert_from_der(&cert, &certlen, &a, &alen) != 1
 			|| asn1_length_is_zero(alen) != 1
+			|| asn1_length_le(*certslen + certlen, TLS_MAX_CERTIFICATES_SIZE) != 1
 			|| x509_cert_to_der(cert, certlen, &certs, certslen) != 1) {
 			error_print();
 			return -1;
